@@ -3,6 +3,7 @@ CONSTANTS
   MaxDepth = 2
   MaxArts = 4
   MaxSteps = 4
+  NNames = 2
   NTexts = 2
   GenDepth = 99
   Ops = {"mkbundle","mkcat","post","delart","delitem","get","list","cats","reload","setname"}
